@@ -225,6 +225,7 @@ func main() {
 		}
 	}()
 	seen := map[string]bool{}
+	nOracle, nMismatch := 0, 0
 	started := time.Now()
 	for i, c := range cases {
 		if *maxTime > 0 && time.Since(started) > *maxTime {
@@ -259,10 +260,17 @@ func main() {
 		for _, t := range v.Tags {
 			res.Tags[t]++
 		}
-		if len(v.Oracle) > 0 && len(res.Failures) < *maxFail {
-			res.Failures = append(res.Failures, failure{i, c.Op, "oracle", v.Oracle})
-		} else if len(v.Mismatch) > 0 && len(res.Failures) < *maxFail {
-			res.Failures = append(res.Failures, failure{i, c.Op, "mismatch", v.Mismatch})
+		// separate quotas: mismatches must never crowd out a property violation
+		if len(v.Oracle) > 0 {
+			if nOracle < *maxFail {
+				res.Failures = append(res.Failures, failure{i, c.Op, "oracle", v.Oracle})
+			}
+			nOracle++
+		} else if len(v.Mismatch) > 0 {
+			if nMismatch < *maxFail {
+				res.Failures = append(res.Failures, failure{i, c.Op, "mismatch", v.Mismatch})
+			}
+			nMismatch++
 		}
 	}
 	res.ModelAsks = m.n
